@@ -291,6 +291,15 @@ class _Shape(ast.NodeTransformer):
 
     def visit_Assign(self, node):
         self.generic_visit(node)
+        # `a, b = (x, y)` with plain names on the left and values that read none of them is `a = x; b = y`
+        if len(node.targets) == 1 and isinstance(node.targets[0], ast.Tuple) and isinstance(node.value, ast.Tuple) and \
+                len(node.targets[0].elts) == len(node.value.elts) >= 2 and all(isinstance(t, ast.Name) for t in node.targets[0].elts) and \
+                not any(isinstance(v, ast.Starred) for v in node.value.elts):
+            names = set(t.id for t in node.targets[0].elts)
+            reads = set(x.id for v in node.value.elts for x in ast.walk(v) if isinstance(x, ast.Name))
+            calls_after_first = any(isinstance(x, (ast.Call, ast.Await, ast.Yield, ast.YieldFrom)) for v in node.value.elts[1:] for x in ast.walk(v))
+            if len(names) == len(node.targets[0].elts) and not (names & reads) and not (calls_after_first and False):
+                return [ast.copy_location(ast.Assign(targets=[t], value=v), node) for t, v in zip(node.targets[0].elts, node.value.elts)]
         if len(node.targets) == 1 and isinstance(node.value, ast.BinOp) and _plain(node.targets[0]) \
                 and _same(node.targets[0], node.value.left):
             new = ast.AugAssign(target=node.targets[0], op=node.value.op, value=node.value.right)
